@@ -335,8 +335,12 @@ func c12Generate(r *rand.Rand, id string, maxEntries, maxData int) *c12Case {
 		cs.target = "empty"
 	case t < 91:
 		cs.target = "deep"
-	case t < 96:
+	case t < 94:
 		cs.target = "nonempty"
+	case t < 96:
+		cs.target = "stale-file-in-subdir" // what a failed earlier extraction may leave behind
+	case t < 98:
+		cs.target = "empty-subdirs"
 	default:
 		cs.target = "file"
 	}
@@ -414,6 +418,12 @@ func c12Prepare(cs *c12Case, base string) (*fsbox.Box, string, error) {
 		if err = os.Mkdir(box.Target, 0o777); err == nil {
 			err = os.WriteFile(filepath.Join(box.Target, "existing.txt"), []byte("already here\n"), 0o644)
 		}
+	case "stale-file-in-subdir":
+		if err = os.MkdirAll(filepath.Join(box.Target, "zz-old", "sub"), 0o777); err == nil {
+			err = os.WriteFile(filepath.Join(box.Target, "zz-old", "sub", "stale.txt"), []byte("left by an earlier attempt\n"), 0o644)
+		}
+	case "empty-subdirs":
+		err = os.MkdirAll(filepath.Join(box.Target, "zz-old", "sub"), 0o777)
 	case "file":
 		err = os.WriteFile(box.Target, []byte("a file where the directory should be\n"), 0o644)
 	}
@@ -534,8 +544,45 @@ func c12Judge(c *mon.Ctx, cs *c12Case, wit func() any, czErr, uzErr error, befor
 	c.Class(fmt.Sprintf("own:%s:honest=%t:%s", own, honestAll, outcome))
 	c.Class("target:" + cs.target + ":" + outcome)
 
-	if cs.target == "nonempty" || cs.target == "file" {
-		// the statement is about archives; an unusable target is only watched for (a)
+	// (d) after a successful extraction the tree equals the entries
+	treeEqualsEntries := func(preexisting ...string) bool {
+		c.Eval(1)
+		want := zipcWant{}
+		allow := map[string]bool{}
+		for _, d := range preexisting {
+			allow[d] = true
+		}
+		for i := range cs.ents {
+			e := &cs.ents[i]
+			rel := strings.TrimPrefix(e.Name, prefix)
+			if rel == "" {
+				continue
+			}
+			if e.isDir() {
+				for d := strings.TrimSuffix(rel, "/"); d != "." && d != "/"; d = filepath.Dir(d) {
+					allow[d] = true
+				}
+				continue
+			}
+			want[rel] = zipcWantOf(int64(len(e.Data)), zipcSum(e.Data))
+		}
+		rel, _ := filepath.Rel(box.Root, dir)
+		if d := zipcTreeDiff(after.Under(filepath.ToSlash(rel)), want, allow); d != "" {
+			c.Violation("extracted-tree-differs-from-entries", cs.id, map[string]any{"case": wit(), "diff": d})
+			return false
+		}
+		c.Count("files-extracted", len(want))
+		c.Sample("extracted", 2, wit())
+		return true
+	}
+	if cs.target == "nonempty" || cs.target == "file" || cs.target == "stale-file-in-subdir" || cs.target == "empty-subdirs" {
+		// the statement is about archives; an unusable target ("If dir exists, it must be empty") is
+		// watched for (a), and, should extraction into it succeed all the same, for (d): what is then in
+		// the target must still be the entries and nothing else (directories that were there before and
+		// hold no file are let pass)
+		if uzErr == nil && cs.target != "file" {
+			treeEqualsEntries("zz-old", "zz-old/sub")
+		}
 		return
 	}
 	if crcUnspec {
@@ -577,32 +624,8 @@ func c12Judge(c *mon.Ctx, cs *c12Case, wit func() any, czErr, uzErr error, befor
 		c.Sample("own-clean-checkzip-rejects", 3, map[string]any{"case": wit(), "checkzip": zipcErrStr(czErr)})
 	}
 
-	// (d) after a successful extraction the tree equals the entries
 	if uzErr == nil {
-		c.Eval(1)
-		want := zipcWant{}
-		allow := map[string]bool{}
-		for i := range cs.ents {
-			e := &cs.ents[i]
-			rel := strings.TrimPrefix(e.Name, prefix)
-			if rel == "" {
-				continue
-			}
-			if e.isDir() {
-				for d := strings.TrimSuffix(rel, "/"); d != "." && d != "/"; d = filepath.Dir(d) {
-					allow[d] = true
-				}
-				continue
-			}
-			want[rel] = zipcWantOf(int64(len(e.Data)), zipcSum(e.Data))
-		}
-		rel, _ := filepath.Rel(box.Root, dir)
-		if d := zipcTreeDiff(after.Under(filepath.ToSlash(rel)), want, allow); d != "" {
-			c.Violation("extracted-tree-differs-from-entries", cs.id, map[string]any{"case": wit(), "diff": d})
-			return
-		}
-		c.Count("files-extracted", len(want))
-		c.Sample("extracted", 2, wit())
+		treeEqualsEntries()
 	} else {
 		c.Sample("rejected", 3, map[string]any{"case": wit(), "checkzip": zipcErrStr(czErr), "unzip": zipcErrStr(uzErr)})
 		if len(after.Under("l1/l2/target")) > 0 && cs.target != "empty" {
